@@ -134,6 +134,7 @@ int main(int argc, char** argv) {
     o.seed = seed * 1000003 + it;
     o.strategy = (it % 3 == 2) ? dsched::PCT : dsched::RANDOM;
     o.stickiness = 30 + (int)rng.below(60);
+    if (it % 5 >= 3) o.spuriousPerMille = 60;   // signals interrupting futex waits (EINTR)
     if (it % 2 == 0) {
       LatchScenario sc;
       sc.count = (int)rng.range(1, 6);
